@@ -36,8 +36,8 @@ static rc::Gen<Op> c15_op()
 	});
 }
 
-static const char *CRED = "{\"users\":{\"u0\":{\"password\":\"$1$saltsalt$T6M8rJUbZ8gCDrAiOJ8mo.\",\"auth\":{\"fetchGroups\":[\"g1\"],\"setGroups\":[\"g1\"],\"callGroups\":[\"g1\"]}},"
-                          "\"u1\":{\"password\":\"abJnggxhB/yWI\",\"admin\":true,\"auth\":{\"fetchGroups\":[\"g1\",\"g2\"],\"setGroups\":[\"g2\"],\"callGroups\":[\"g2\"]}}}}";
+static const char *CRED = "{\"users\":{\"u0\":{\"password\":\"$1$saltsalt$.YOui1omsu7RD6.BcwPK//\",\"auth\":{\"fetchGroups\":[\"g1\"],\"setGroups\":[\"g1\"],\"callGroups\":[\"g1\"]}},"
+                          "\"u1\":{\"password\":\"abWAcrLcu.e2o\",\"admin\":true,\"auth\":{\"fetchGroups\":[\"g1\",\"g2\"],\"setGroups\":[\"g2\"],\"callGroups\":[\"g2\"]}}}}";
 
 static rc::Gen<Scenario> c15_gen()
 {
@@ -51,6 +51,8 @@ static rc::Gen<Scenario> c15_gen()
 		{ Op o; o.kind = ADD; o.conn = 0; o.a = 1; o.b = -1; sc.ops.push_back(o); }
 		// four subscriptions fill the initial fetcher table of every element; the fifth one (below) makes it grow
 		for (int f = 0; f < 4; f++) { Op o; o.kind = FETCH; o.conn = 1; o.a = f; o.b = 0; sc.ops.push_back(o); }
+		// one connection authenticates twice (the second time as another user)
+		if (cred) { Op a; a.kind = AUTH; a.conn = 0; a.a = 0; a.b = 0; sc.ops.push_back(a); Op b = a; b.a = 1; sc.ops.push_back(b); } // (connection 0 holds no fetch: a peer that fetched may not authenticate)
 		// a rule whose matcher copies several strings (containsAllOf), for fetch and for get
 		{ Op o; o.kind = FETCH; o.conn = 1; o.a = 5; o.b = 7; sc.ops.push_back(o); }
 		{ Op o; o.kind = GET; o.conn = 1; o.b = 7; sc.ops.push_back(o); }
